@@ -191,16 +191,18 @@ ObsInit == /\ now = 0 /\ cfg = Derive([root |-> RootOnly(0, 1, 1), routes |-> <<
            /\ elig = << >> /\ chk = {}
 
 \* eligibility clocks (C01), recomputed at every step for the new instant
-\* nothing keeps a notification about a from being delivered to integration i of group gk at t
-Open(a, gk, i, t, v, s) ==
+\* no silence, inhibition or time interval withholds a at t
+Unsuppressed(a, gk, t, v, s) ==
   /\ ~\E j \in 1..Len(s) : SilActive(s[j], t) /\ SilMatches(s[j].ms, a)
   /\ ~(cfg.inhibit /\ Lbl[a].sev = "warn" /\
        \E x \in Alerts : Lbl[x].sev = "crit" /\ Lbl[x].g = Lbl[a].g /\ x \in DOMAIN v /\ t < v[x].end)
-  /\ ~Failing(Opt(gk).recv, i, t)
   /\ ~MayMuted(gk, t)
+\* nothing keeps a notification about a from being delivered to integration i of group gk at t
+Open(a, gk, i, t, v, s) == Unsuppressed(a, gk, t, v, s) /\ ~Failing(Opt(gk).recv, i, t)
 Eligible(a, gk, i, t, v, s) == a \in DOMAIN v /\ t < v[a].end /\ Open(a, gk, i, t, v, s)
 \* C05: the alert has resolved and its resolution could be delivered
-Reportable(a, gk, i, t, v, s) == a \in DOMAIN v /\ t >= v[a].end /\ Open(a, gk, i, t, v, s)
+\* (a failing integration does not excuse: a failed flush keeps the alert and tries again)
+Reportable(a, gk, i, t, v, s) == a \in DOMAIN v /\ t >= v[a].end /\ Unsuppressed(a, gk, t, v, s)
 \* clocks: <<a, gk, i>> since when continuously eligible; <<a, gk, i, "r">> since when continuously
 \* resolved and reportable (-1: not)
 EligNext(t, v, s) ==
@@ -233,7 +235,8 @@ C05_Deadline ==
      IN ~( /\ elig[p] >= 0 /\ a \in DOMAIN ver /\ elig[p] = ver[a].end
            /\ k \in DOMAIN last /\ SrOf(p[2], p[3]) /\ a \in last[k].firing
            /\ now - since > Bound(p[2])
-           /\ since + Bound(p[2]) < last[k].t + 2 * Opt(p[2]).ri
+           /\ ~FailingDuring(Opt(p[2]).recv, p[3], now - Bound(p[2]), now)
+           /\ now < last[k].t + 2 * Opt(p[2]).ri
            /\ ~(cancd.lastReload >= ver[a].end /\ GcTickIn(ver[a].end, cancd.lastReload)) )
 
 \* C04: repeats arrive on time - an unchanged firing group is re-notified no later than
@@ -593,7 +596,8 @@ ApiAlerts(list) ==
 \* GET /api/v2/alerts/groups at a quiescent instant: exactly the partition of the current
 \* alerts by group_by value (C06)
 ApiGroups(list) ==
-  LET \* the group keys an API entry [recv, lbl] can stand for (the API does not tell the route)
+  LET SilEdgeG(a) == \E i \in 1..Len(sil) : SilMatches(sil[i].ms, a) /\ (sil[i].start = now \/ sil[i].end = now)
+      \* the group keys an API entry [recv, lbl] can stand for (the API does not tell the route)
       Cand(e) == {gk \in AllGK : Opt(gk).recv = e.recv /\ gk = Opt(gk).rk \o ":" \o e.lbl}
       HasFiring(gk) == \E a \in DOMAIN ver : FiringAt(a, now) /\ gk \in GKeys(a)
       bad ==
@@ -612,6 +616,14 @@ ApiGroups(list) ==
                    IN Cardinality({i \in 1..Len(list) : list[i].lbl = e.lbl /\ list[i].recv = e.recv})
                         < Cardinality({x \in Cand(e) : HasFiring(x)})
                 THEN {"C06_api_groups_miss_group"} ELSE {})
+        \* C02 / C03: the status of every alert listed in a group is its status now (the direct
+        \* evaluation of the stored silences / the inhibition rule), as in GET /api/v2/alerts
+        \cup (IF \E j \in 1..Len(list) : \E x \in SeqToSet(list[j].st) :
+                   x.l \in Alerts /\ FiringAt(x.l, now) /\ ~SilEdgeG(x.l) /\ ((x.nsil > 0) # MutedAt(x.l, now))
+                THEN {"C02_api_groups_status_differs_from_stored_silences"} ELSE {})
+        \cup (IF \E j \in 1..Len(list) : \E x \in SeqToSet(list[j].st) :
+                   x.l \in Alerts /\ FiringAt(x.l, now) /\ ((x.ninh > 0) # InhibitedAt(x.l, now))
+                THEN {"C03_api_groups_inhibition_status_differs_from_rule"} ELSE {})
         \* C15: the group is reported as muted, with the interval names, as of its last flush
         \cup (IF \E j \in 1..Len(list) : Cardinality(Cand(list[j])) = 1 /\
                    LET gk == CHOOSE x \in Cand(list[j]) : TRUE IN
